@@ -27,19 +27,45 @@ def scenarios():
     return S
 
 
-def run_all():
+LOADS = [
+    ("load-unnamed", b'require "fileinto";\nif header :is "Subject" "x" {\n    fileinto "F";\n}\nif header :contains "To" "y" {\n    keep;\n}\n'),
+    ("load-mixed", b'# Filter: named\nif true {\n    keep;\n}\nif false {\n    if header :is "A" "b" {\n        discard;\n    }\n}\nkeep;\n'),
+    ("load-one", b'if size :over 100K {\n    discard;\n}\n'),
+    ("load-requires", b'require ["envelope", "copy", "fileinto"];\n# Description: only a description\nif envelope :is "from" "a@b" {\n    fileinto :copy "F";\n}\n'),
+]
+
+
+def run_all(order=None):
+    """every scenario in a FiltersSet of its own; `order` (a permutation of the scenario indices) only changes the order in
+    which they are run — the result, listed in the canonical order, must not depend on it"""
     from sievelib.factory import FiltersSet
-    out = []
-    for name, conds, acts, mt in scenarios():
-        fs = FiltersSet("t")
-        try:
-            fs.addfilter(name, conds, acts, mt)
-            fs.addfilter(name + "2", conds, acts, mt)
-            fs.disablefilter(name + "2")
-            out.append([name, "ok", str(fs), list(fs.requires)])
-        except Exception as e:  # noqa
-            out.append([name, "exc", type(e).__name__, str(e)[:80]])
-    return out
+    from sievelib.parser import Parser
+    jobs = [("build", x) for x in scenarios()] + [("load", x) for x in LOADS]
+    idx = list(range(len(jobs))) if order is None else list(order)
+    res = {}
+    for i in idx:
+        kind, job = jobs[i]
+        if kind == "build":
+            name, conds, acts, mt = job
+            fs = FiltersSet("t")
+            try:
+                fs.addfilter(name, conds, acts, mt)
+                fs.addfilter(name + "2", conds, acts, mt)
+                fs.disablefilter(name + "2")
+                res[i] = [name, "ok", str(fs), list(fs.requires)]
+            except Exception as e:  # noqa
+                res[i] = [name, "exc", type(e).__name__, str(e)[:80]]
+        else:
+            name, text = job
+            try:
+                p = Parser()
+                ok = p.parse(text)
+                fs = FiltersSet("t")
+                fs.from_parser_result(p)
+                res[i] = [name, "ok" if ok else "rejected", str(fs), list(fs.requires), [[f["name"], f.get("description", ""), f["enabled"]] for f in fs.filters]]
+            except Exception as e:  # noqa
+                res[i] = [name, "exc", type(e).__name__, str(e)[:80]]
+    return [res[i] for i in range(len(jobs))]
 
 
 if __name__ == "__main__":
